@@ -72,7 +72,7 @@ func GenWorld(r *hk.Rand, b *B, big bool) {
 			ch = append(ch, dangling[r.Intn(len(dangling))])
 		}
 		name := dirNames[r.Intn(len(dirNames))]
-		key := name + "|" + strings.Join(ch, ",")
+		key := strings.Join(ch, ",") // directories with the same entries would share their static-set blob
 		if dirSeen[key] {
 			continue
 		}
@@ -115,7 +115,11 @@ func GenWorld(r *hk.Rand, b *B, big bool) {
 			if r.Chance(20) {
 				kind = "set"
 			}
-			switch r.Intn(9) {
+			pick := r.Intn(9)
+			if r.Chance(20) {
+				pick = 3
+			}
+			switch pick {
 			case 0, 1:
 				b.Claim(pn, kind, "tag", tagVals[r.Intn(len(tagVals))], nextDate(pn))
 			case 2:
@@ -240,6 +244,9 @@ func (g *cgen) intC(around []int64) *IntC {
 			return &IntC{ZeroMin: true, Max: v}
 		}
 		return &IntC{ZeroMax: true}
+	}
+	if g.r.Chance(75) {
+		return &IntC{Min: v, Max: v + 1}
 	}
 	return &IntC{Min: v, Max: v - 1 - int64(g.r.Intn(2))} // often invalid (min > max)
 }
@@ -382,7 +389,14 @@ func (g *cgen) leaf(depth int, kind string, inLoop bool) *Cons {
 func (g *cgen) perm(depth int) *PermC {
 	p := &PermC{}
 	a, v := g.attrVal()
-	switch g.r.Intn(12) {
+	k := g.r.Intn(12)
+	if depth > 0 && g.r.Chance(30) {
+		k = 5 + g.r.Intn(2)
+	}
+	if k == 11 && g.r.Chance(70) {
+		k = 0
+	}
+	switch k {
 	case 0, 1:
 		p.Attr, p.Value = a, v
 	case 2:
@@ -396,8 +410,12 @@ func (g *cgen) perm(depth int) *PermC {
 		}
 	case 5:
 		if depth > 0 {
-			p.Attr = g.pick([]string{"camliMember", "camliContent", "camliPath:x", a})
-			p.InSet = g.cons(depth-1, "", false)
+			p.Attr = g.pick([]string{"camliMember", "camliMember", "camliContent", "camliPath:x", a})
+			kind := ""
+			if p.Attr == "camliMember" && g.r.Chance(60) {
+				kind = "pn"
+			}
+			p.InSet = g.cons(depth-1, kind, false)
 			p.ValueAll = g.r.Chance(20)
 		} else {
 			p.Attr, p.Value = a, v
